@@ -1,8 +1,12 @@
 //! Native oracle for C12: reads one JSON selection per line
 //!   {"field":"f","args":[["a",VALUE],...]}   VALUE = {"k":"var","n":"x"} | {"k":"int","v":"-5"} | {"k":"bool","v":true}
 //!        | {"k":"null"} | {"k":"enum","n":"E"} | {"k":"str","cp":[97,32,98]} | {"k":"obj","e":[["key",VALUE],...]}
-//! and prints the response key computed by the real compiler code
-//! (MergedScalarFieldSelection::normalization_alias -> get_aliased_mutation_field_name -> to_alias_str_chunk).
+//! and prints, as JSON, {"key": the response key computed by the real compiler code
+//! (MergedScalarFieldSelection::normalization_alias -> get_aliased_mutation_field_name -> to_alias_str_chunk),
+//! "norm_args": the JavaScript text the compiler emits for these arguments into the normalization AST
+//! (artifact_content get_serialized_field_arguments, through the cfg(kani) verification wrapper)}.
+//! Strings may be given raw ({"k":"str","raw":"a\\\"b"}: the text between the quotes as the iso lexer keeps it).
+//! Built with RUSTFLAGS="--cfg kani".
 use common_lang_types::{EmbeddedLocation, WithLocationPostfix};
 use graphql_lang_types::NameValuePair;
 use intern::string_key::Intern;
@@ -19,7 +23,10 @@ fn value(v: &Value) -> NonConstantValue {
         "null" => NonConstantValue::Null,
         "enum" => NonConstantValue::Enum(v["n"].as_str().unwrap().intern().into()),
         "str" => {
-            let s: String = v["cp"].as_array().unwrap().iter().map(|c| char::from_u32(c.as_u64().unwrap() as u32).unwrap()).collect();
+            let s: String = match v.get("raw") {
+                Some(r) => r.as_str().unwrap().to_string(),
+                None => v["cp"].as_array().unwrap().iter().map(|c| char::from_u32(c.as_u64().unwrap() as u32).unwrap()).collect(),
+            };
             NonConstantValue::String(s.intern().into())
         }
         "obj" => NonConstantValue::Object(
@@ -48,6 +55,7 @@ fn main() {
             is_fallible: false,
         };
         let key = sel.normalization_alias().unwrap_or_else(|| sel.name.to_string());
-        println!("{}", serde_json::to_string(&key).unwrap());
+        let norm_args = artifact_content::verif_hooks::serialized_field_arguments(&sel.arguments, 0);
+        println!("{}", serde_json::json!({"key": key, "norm_args": norm_args}));
     }
 }
